@@ -948,11 +948,129 @@ Proof.
     destruct (inplace_done hp a hp3 k' b'' (set_used (set_data b'' m4) (used + length text))
                 (ptrans_trans _ _ _ _ _ _ T2 T3) E3 R3 ltac:(bsimp; lia) W5) as [T5 AV5].
     split; [exact T5|]. rewrite AV5. unfold Dn, bval. rewrite V5. bsimp. rewrite Tr3.
-    repeat f_equal.
     (* the bytes in front of the text are still those of the first buffer *)
+    assert (PF : firstn used (bdata b'') = firstn used (bdata b')); [|rewrite PF; reflexivity].
     rewrite (prefix_view b'' used W3) by lia. rewrite V3.
     rewrite firstn_ext by (rewrite (bview_length _ W2); subst b2; bsimp; lia).
     rewrite <- (prefix_view b2 used W2) by (subst b2; bsimp; lia).
     subst b2 m. bsimp. rewrite firstn_app, firstn_firstn, Nat.min_id, firstn_length, L.
     replace (used - Nat.min used (bsize b')) with 0 by lia. simpl. apply app_nil_r.
+Qed.
+
+Lemma array_printf_sem hp a text cnt acc : aok hp a ->
+  ares_ok hp a (array_printf hp a text) (s_printf (hint_at hp a cnt acc) (aval hp a) text) true.
+Proof.
+  intros OK. unfold array_printf. destruct a as [i|].
+  - destruct (OK i eq_refl) as [b [E [W R]]]. rewrite E.
+    assert (AV : aval hp (Some i) = Some (btr b, bview b)) by (unfold aval; rewrite E; reflexivity).
+    rewrite AV. unfold s_printf.
+    destruct (Nat.eqb_spec (btr b) 1) as [T1|T1]; cbn [negb].
+    2:{ cbn [ares_ok]. split; [apply P_same|]. rewrite AV. auto. }
+    set (len := round64 (bsize b - bused b)).
+    pose proof (array_slice_sem hp (Some i) (bused b) len cnt acc OK) as S.
+    unfold slice_refuse, sliced, tl_of in S. rewrite AV in S. cbn [fst snd] in S.
+    rewrite T1, al3_one in S. cbn [negb andb orb Nat.eqb] in S.
+    destruct (array_slice hp (Some i) (bused b) len) as [hp2 a2 n|hp2 a2|]; [| |contradiction].
+    + destruct S as [Bk [k [b' [-> [E' [T [R' [I' [W' [S' [Tr V']]]]]]]]]]]. rewrite Bk.
+      assert (U' : bused b' = bused b + len).
+      { rewrite <- (bview_length _ W'), V', ext_length, (bview_length _ W). lia. }
+      pose proof (printf_at_sem hp (Some i) hp2 k b' (bused b) len text T E' W' R' I' Tr U' S') as P.
+      assert (PF : firstn (bused b) (bdata b') = bview b).
+      { rewrite (prefix_view b' (bused b) W') by lia. rewrite V'.
+        rewrite firstn_ext by (rewrite (bview_length _ W); lia).
+        apply firstn_all2. rewrite (bview_length _ W). lia. }
+      rewrite PF in P. exact P.
+    + destruct S as [Bk [-> ->]]. rewrite Bk. cbn [ares_ok]. split; [apply P_same|]. rewrite AV. auto.
+  - unfold halloc. set (nb := set_tr (new_buf 64 false false) 1).
+    assert (Wn : buf_wf nb) by (apply buf_wf_set_tr_empty; [apply new_buf_wf|reflexivity]).
+    assert (En : hget (hp ++ [Some nb]) (length hp) = Some nb).
+    { rewrite hget_app_r by lia. rewrite Nat.sub_diag. reflexivity. }
+    assert (OK1 : aok (hp ++ [Some nb]) (Some (length hp))).
+    { intros i Hi. inversion Hi; subst i. exists nb. split; [exact En|]. split; [exact Wn|]. subst nb; bsimp; lia. }
+    pose proof (array_slice_sem (hp ++ [Some nb]) (Some (length hp)) 0 (alloc_size 64) 0 false OK1) as S.
+    unfold slice_refuse, sliced, tl_of in S.
+    assert (AV1 : aval (hp ++ [Some nb]) (Some (length hp)) = Some (1, [])).
+    { unfold aval. rewrite En. reflexivity. }
+    rewrite AV1 in S. cbn [fst snd] in S. rewrite al3_one in S. cbn [negb andb orb Nat.eqb] in S.
+    assert (NB : blocked (hint_at (hp ++ [Some nb]) (Some (length hp)) 0 false) [] = false).
+    { unfold blocked. cbn [length Nat.eqb negb]. apply andb_false_r. }
+    rewrite NB in S.
+    destruct (array_slice (hp ++ [Some nb]) (Some (length hp)) 0 (alloc_size 64)) as [hp2 a2 n|hp2 a2|];
+      [|destruct S as [S _]; discriminate|contradiction].
+    destruct S as [_ [k [b' [-> [E' [T [R' [I' [W' [S' [Tr V']]]]]]]]]]].
+    assert (T0 : ptrans hp None (hp ++ [Some nb]) (Some (length hp))).
+    { apply (P_fresh0 hp None); [reflexivity|exact Wn]. }
+    assert (U' : bused b' = 0 + alloc_size 64).
+    { rewrite <- (bview_length _ W'), V', ext_length. cbn [length]. lia. }
+    pose proof (printf_at_sem hp None hp2 k b' 0 (alloc_size 64) text
+                  (ptrans_trans _ _ _ _ _ _ T0 T) E' W' R' I' Tr U' S') as P.
+    cbn [firstn app] in P. exact P.
+Qed.
+
+(* ------------------------------------------------------------------ mpt_slice_write *)
+Lemma window_clip (l : list byte) off0 len0 :
+  let used := length l in
+  let off := if used <? off0 + len0 then (if used <=? off0 then used else off0) else off0 in
+  let len := if used <? off0 + len0 then (if used <=? off0 then 0 else used - off0) else len0 in
+  firstn len0 (skipn off0 l) = firstn len (skipn off l) /\ off + len <= used.
+Proof.
+  cbn zeta. destruct (Nat.ltb_spec (length l) (off0 + len0)) as [H|H].
+  - destruct (Nat.leb_spec (length l) off0) as [H2|H2].
+    + split; [|lia]. rewrite skipn_all2 by lia. rewrite firstn_nil. reflexivity.
+    + split; [|lia]. rewrite !firstn_all2 by (rewrite skipn_length; lia). reflexivity.
+  - split; [reflexivity|lia].
+Qed.
+
+Lemma norm_length n from d : length (norm n from d) = n.
+Proof.
+  unfold norm. destruct from; [|apply length_zeros].
+  rewrite firstn_length, app_length, length_zeros. lia.
+Qed.
+
+Lemma filled_buf_sem content :
+  match filled_buf content with
+  | Ok nb => bref nb = 1 /\ buf_wf nb /\ btr nb = 0 /\ bview nb = content /\ bused nb = length content
+  | _ => False
+  end.
+Proof.
+  unfold filled_buf. pose proof (alloc_size_ge (length content)). bsimp.
+  rewrite wr_sem by (rewrite repeat_length; lia). cbn [bind]. split; [reflexivity|]. split.
+  - unfold buf_wf; bsimp. split; [len_simp; lia|]. split; [lia|intros Z; congruence].
+  - split; [reflexivity|]. split; [|reflexivity]. unfold bview; bsimp.
+    change (firstn 0 (repeat POISON (alloc_size (length content)))) with (@nil N). rewrite app_nil_l.
+    rewrite firstn_app, Nat.sub_diag, firstn_all. simpl. apply app_nil_r.
+Qed.
+
+Definition win (b : buf) (off len : nat) : list byte := firstn len (skipn off (bview b)).
+
+Lemma fast_append_sem hp a hp1 j b off len nblk esz data :
+  ptrans hp a hp1 (Some j) -> hget hp1 j = Some b -> buf_wf b -> bref b = 1 -> btr b = 0 ->
+  off + len <= bused b -> esz <> 0 -> length data = nblk * esz ->
+  match fast_append hp1 j off len nblk esz data with
+  | SDone hp' a' off' len' n => exists b2, a' = Some j /\ hget hp' j = Some b2 /\ ptrans hp a hp' a' /\ btr b2 = 0 /\
+      off' = off /\ n <= nblk /\ win b2 off' len' = win b off len ++ firstn (n * esz) data
+  | _ => False
+  end.
+Proof.
+  intros T E W R Tr Hw He Hd. unfold fast_append. rewrite E. pose proof W as [L [U A]].
+  set (avail := bsize b - (off + len)). set (cnt := Nat.min nblk (avail / esz)).
+  assert (Hc : cnt * esz <= avail).
+  { subst cnt. pose proof (Nat.mul_div_le avail esz He).
+    assert (Nat.min nblk (avail / esz) * esz <= (avail / esz) * esz) by (apply Nat.mul_le_mono_r; lia). lia. }
+  assert (Hle : cnt * esz <= length data).
+  { rewrite Hd. apply Nat.mul_le_mono_r. subst cnt; lia. }
+  assert (Hf : length (firstn (cnt * esz) data) = cnt * esz) by (rewrite firstn_length; lia).
+  rewrite wr_sem by (rewrite Hf; subst avail; lia).
+  set (b2 := set_used (set_data b _) _).
+  assert (W2 : buf_wf b2).
+  { subst b2. unfold buf_wf; bsimp. split; [rewrite Hf; len_simp; subst avail; lia|]. split.
+    - destruct (Nat.ltb_spec (bused b) (off + len + cnt * esz)); subst avail; lia.
+    - intros Z. congruence. }
+  destruct (inplace_done hp a hp1 j b b2 T E R ltac:(subst b2; bsimp; lia) W2) as [T2 AV2].
+  exists b2. split; [reflexivity|]. split.
+  { rewrite hget_hset, Nat.eqb_refl, (proj2 (Nat.ltb_lt _ _) (hget_lt _ _ _ E)). reflexivity. }
+  split; [exact T2|]. split; [subst b2; bsimp; exact Tr|]. split; [reflexivity|]. split; [subst cnt; lia|].
+  unfold win, bview. subst b2. bsimp. rewrite Hf.
+  destruct (Nat.ltb_spec (bused b) (off + len + cnt * esz));
+    list_eq_k ltac:(fun i => split_at i len).
 Qed.
